@@ -202,7 +202,7 @@ pub fn rev_points(tier: Tier) -> Vec<RevPt> {
 }
 
 pub fn jobs(tier: Tier) -> Vec<Job> {
-    let full = PuChecker { name: "c12-pu-full".into(), seeds: vec!["S1", "S2", "S2r", "S3", "S4", "S5", "S6", "S8"], alpha: Alpha::Full, oracles: vec![oracle] };
+    let full = PuChecker { name: "c12-pu-full".into(), seeds: vec!["S1", "S2", "S2r", "S3", "S4", "S5", "S6", "S8", "S8a"], alpha: Alpha::Full, oracles: vec![oracle] };
     let core = PuChecker { name: "c12-pu-swapfocus".into(), seeds: vec!["S2", "S4"], alpha: Alpha::SwapFocus, oracles: vec![oracle] };
     vec![
         explore_job(full, tier.pick(2, 3), Caps::default()),
